@@ -27,7 +27,12 @@ pub fn analyze_trait(item_trait: syn::ItemTrait) -> syn::Result<OutTrait> {
 
     for item in item_trait.items.into_iter() {
         match item {
-            syn::TraitItem::Fn(method) => {
+            syn::TraitItem::Fn(mut method) => {
+                // (the trait is printed anew, signatures and default bodies)
+                syn::visit_mut::VisitMut::visit_trait_item_fn_mut(
+                    &mut crate::signature::fragments::FragmentsToParens,
+                    &mut method,
+                );
                 let originally_async = method.sig.asyncness.is_some();
 
                 let entrait_sig = EntraitSignature::new(method.sig);
